@@ -114,6 +114,7 @@ def plan_and_run(prop, eng, tier, seed, runs, pool, extra=None):
         res = run_world(job, hs)
         res['group'] = gi
         res['hashseed'] = hs
+        res['range'] = [lo, hi]
         return res
 
     return list(pool.map(one, groups))
@@ -136,6 +137,8 @@ def aggregate(results):
         for v in r['violations']:
             v['hashseed'] = r['hashseed']
             v['group'] = r['group']
+            if 'range' in r:
+                v['world_range'] = r['range']
             agg['violations'].append(v)
         if len(agg['samples']) < 6:
             agg['samples'].extend(r['samples'][:1])
@@ -198,6 +201,17 @@ def process_violations(prop, eng, seed, agg, pool, known, per_class=8):
             if r1.get('violation') and r1['violation']['class'] == cls and r1['digest'] == r2.get('digest'):
                 return {'case': case, 'violation': r1['violation'], 'digest': r1['digest'],
                         'log': r1['log'], 'summary': r1.get('summary', {}), 'minimized': case is not v['case']}
+        # the violation depends on what ran earlier in its world: replay the
+        # world from its first run up to and including this one
+        if 'world_range' in v:
+            pc = {'kind': 'world-prefix', 'seed': seed, 'range': [v['world_range'][0], v['index'] + 1]}
+            outs = [replay_prefix(prop, pc, v['hashseed']) for _ in range(2)]
+            if all(o and o['violation'] and o['violation']['class'] == cls for o in outs) \
+                    and outs[0]['digest'] == outs[1]['digest']:
+                o = outs[0]
+                return {'case': pc, 'violation': o['violation'], 'digest': o['digest'], 'log': [],
+                        'summary': dict(o.get('summary', {}), history='depends on the earlier runs of its world'),
+                        'minimized': False}
         return None
 
     items = [v for vs in todo.values() for v in vs]
@@ -221,6 +235,17 @@ def process_violations(prop, eng, seed, agg, pool, known, per_class=8):
         path = write_replay(prop, seed, v, h['case'], h['violation'], h['digest'], h['log'], h['summary'])
         out_viol.append((h['violation'], path, rest.get(h['violation']['class'], 0)))
     return out_viol, out_known, herrs
+
+
+def replay_prefix(prop, pc, hashseed):
+    """Re-run a world from its first run; return the last run's result."""
+    lo, hi = pc['range']
+    res = run_world({'op': 'runs', 'prop': prop, 'seed': pc['seed'], 'range': [lo, hi], 'tier': 'quick',
+                     'max_violations': 10 ** 6}, hashseed)
+    for v in res['violations']:
+        if v['index'] == hi - 1:
+            return {'violation': v['violation'], 'digest': rng.digest(res['digests']), 'summary': v.get('summary', {})}
+    return {'violation': None, 'digest': rng.digest(res['digests'])}
 
 
 def _safe(f, *a):
@@ -354,6 +379,8 @@ def replay(path):
     try:
         if custom is not None:
             r = custom(rep, run_world)
+        elif rep['case'].get('kind') == 'world-prefix':
+            r = replay_prefix(prop, rep['case'], rep['hashseed'])
         else:
             r = run_world({'op': 'exec', 'prop': prop, 'cases': [rep['case']]}, rep['hashseed'])['results'][0]
     except HarnessError as e:
